@@ -146,3 +146,27 @@ pub fn remove_wrapping_quotes<'a>(string: &&'a str) -> &'a str {
         true => &string[1 .. string.len() - 1],
     }
 }
+
+/// Verification unit ports (compiled only with `--cfg gamedig_verif`).
+#[cfg(gamedig_verif)]
+pub mod verif_unit {
+    use super::*;
+
+    pub fn get_server_values(data: &[u8]) -> GDResult<(HashMap<String, String>, usize)> {
+        let mut buffer = Buffer::<LittleEndian>::new(data);
+        let v = super::get_server_values(&mut buffer)?;
+        Ok((v, buffer.current_position()))
+    }
+
+    pub fn get_players_one(data: &[u8]) -> GDResult<Vec<crate::protocols::quake::one::Player>> {
+        let mut buffer = Buffer::<LittleEndian>::new(data);
+        super::get_players::<crate::protocols::quake::one::QuakeOne>(&mut buffer)
+    }
+
+    pub fn get_players_two(data: &[u8]) -> GDResult<Vec<crate::protocols::quake::two::Player>> {
+        let mut buffer = Buffer::<LittleEndian>::new(data);
+        super::get_players::<crate::protocols::quake::two::QuakeTwo>(&mut buffer)
+    }
+
+    pub fn remove_wrapping_quotes<'a>(s: &&'a str) -> &'a str { super::remove_wrapping_quotes(s) }
+}
